@@ -14,27 +14,51 @@ P = {'id': 'C17',
               'read_correct',
               'page_cache_history_correct',
               'overwrite_then_invalidate_coherent',
-              'cached_get_is_inner_get'],
+              'cached_get_is_inner_get',
+              'invalidate_range_covers',
+              'invalidated_page_is_always_reloaded',
+              'invalidate_file_covers',
+              'read_after_write_is_fresh',
+              'read_after_write_is_fresh_from',
+              'covering_invalidation_history_correct',
+              'single_cache_is_wrapped_cache',
+              'page_load_is_file_page',
+              'virtual_read_supplies_nothing',
+              'virtual_pages_stay_empty',
+              'cached_store_is_inner_store',
+              'shared_cache_reads_stay_fresh',
+              'routed_per_shard',
+              'rr_per_shard',
+              'rr_shard_is_lru',
+              'rr_one_shard_is_lru',
+              'rr_get_after_put_refuted',
+              'ta_per_shard',
+              'ta_shard_is_lru',
+              'ta_one_thread_is_lru',
+              'ta_cross_thread_get_refuted',
+              'hash_routing_is_routed',
+              'page_cache_size_le_cap'],
  'trusted': ['modelled (M+S): src/containers/specialized/lru_map.rs (LruList insert_head/remove/move_to_head, LruMap get/put/remove/contains_key/len/clear/evict_lru/allocate_node), '
-             'src/containers/specialized/concurrent_lru_map.rs (Hash routing with the hash as a parameter, per-shard dispatch, clear, len), src/cache/basic_cache.rs (LruPageCache read with the file-size clamp and the page loop, '
-             'get_page with invalidation tracker and eviction, prefetch, invalidate_page/range, in-place overwrite of the file + invalidate_range) with FileManager::read_page of src/cache/mod.rs as "the bytes of the page that exist in the file", '
-             'src/blob_store/cached_store.rs get over the virtual file id',
-             'spec-only cells (direct oracle, no mechanism model): ConcurrentLruMap RoundRobin / ThreadAffinity routing (recorded findings), SingleLruPageCache, '
-             'CachedBlobStore put/get/remove histories (3 write strategies, own and shared cache), FsaCache (bounded, no stale state)',
+             'src/containers/specialized/concurrent_lru_map.rs (select_shard for Hash with the hash as a parameter, RoundRobin with the global counter, ThreadAffinity with the thread-id hash as a parameter; per-shard dispatch, clear, len), '
+             'src/cache/basic_cache.rs (LruPageCache read with the file-size clamp and the page loop, get_page with invalidation tracker and eviction, prefetch, read_with_prefetch, invalidate_page/range with the page arithmetic as written, '
+             'close_file, the file rewritten in place by somebody else with or without a later invalidate_range; SingleLruPageCache) with FileManager::read_page of src/cache/mod.rs (PAGE_SIZE buffer, zero fill, truncation to bytes_read), '
+             'src/blob_store/cached_store.rs (put/get/remove/size/contains/len/flush/prefetch_range/enable/disable/set_write_strategy over the virtual file id, own or shared cache, any wrapped store)',
+             'spec-only cells (direct oracle, no mechanism model): FsaCache (bounded, no stale state), the two-thread probe of one LruMap shard (recorded findings)',
              'not compiled in the pinned tree and therefore not checked: src/cache/lru_cache.rs, page_cache.rs, sharding.rs, simple_impl.rs (src/cache/mod.rs declares only config, stats, buffer, basic_cache)'],
- 'assumptions': ['the key table of LruMap (std HashMap) is a finite map key -> node index; hashers are opaque (ConcurrentLruMap routing is a parameter of the theorems)',
+ 'assumptions': ['the key table of LruMap (std HashMap) is a finite map key -> node index; hashers are opaque (key hash and thread-id hash are parameters of the theorems; the wrapped blob store is a parameter too)',
+                 'an external rewrite of a cached file keeps its size (FileManager records the size at open_file); the dirty-page set of the tracker has no reader that influences a result and is not represented',
                  'Instant::now() is strictly increasing (access times modelled as a counter); which page the page cache evicts is not constrained',
-                 'page ids fit u32 (files below 16 TiB)',
-                 'single-threaded histories: the RwLock/Mutex discipline inside LruMap is not modelled',
+                 'page ids fit u32 (files below 16 TiB); offset + length fits u64 in prefetch / invalidate_range, and in read for ids without a file',
+                 'sequential histories (ThreadAffinity: one operation at a time, possibly from different threads): the RwLock/Mutex discipline inside LruMap is not modelled',
                  'agreement of model and code is established on the generated histories only'],
  'level_text': 'Machine-checked Coq theorems about Gallina restatements of the LRU map (node array with prev/next links, head/tail/count, free-node stack, key table), the sharded map and the page cache '
                '(page table, invalidation tracker, eviction, clamp and read loop): for every capacity and every get/put/remove/contains/clear/len history the node array returns the same results and makes the same eviction-callback '
                'invocations as the recency list, which in turn equals the time-stamped map that evicts the entry with the oldest last access; the entry count never exceeds the capacity; a step\'s callbacks are exactly the entries that stop being '
                'retrievable; each shard of the sharded map is such an LRU on the operations routed to it, for any hash; for every page size, file, coherent cache state, offset and length a page-cache read returns exactly the bytes of the file '
                'in the range (page-straddling, beyond EOF, after eviction / reload / invalidation), every history of reads, prefetches, invalidations and in-place overwrites followed by an explicit invalidation returns the current file bytes on every read; '
-               'the cached blob store over its virtual file id returns the wrapped store\'s bytes. The models are tied to the compiled code on every run by evaluating about 1200 generated histories in Coq (vm_compute) and comparing every result, '
+               'the cached blob store over its virtual file id returns the wrapped store\'s bytes. Extension: invalidate_range drops exactly the pages holding a byte of a non-empty range (page arithmetic as written), close_file drops exactly the file\'s pages; in histories where the file is rewritten behind the cache\'s back every read that visits no rewritten-and-not-yet-invalidated page returns the current bytes, and all reads do when every rewrite is followed by a covering invalidate_range; SingleLruPageCache is its wrapped cache; for every wrapped blob store and every put/get/remove/.../prefetch/enable/disable history (multi-page blobs, shared cache with foreign traffic) the CachedBlobStore shows what the wrapped store shows and does not disturb real-file reads of a shared cache; for RoundRobin and ThreadAffinity routing each shard is an LRU on the operations sent to it (with the two recorded routing findings as refutation theorems). The models are tied to the compiled code on every run by evaluating about 1500 generated histories in Coq (vm_compute) and comparing every result, '
                'callback invocation and read digest with the implementation; a time-stamped reference LRU, the real files and a shadow map serve as a direct oracle on the code.',
  'level_note': 'Trusted: Coq kernel + vm_compute; the hand-written models (agreement with the code is checked on generated histories only); harness generators/oracle. '
-               'Concurrency inside one LruMap (lock order) is not modelled; RoundRobin/ThreadAffinity routing are recorded findings; three defects were repaired by fix: commits (clear leaking free nodes, short last page, unclamped reads).',
+               'Concurrency inside one LruMap (lock order) is not modelled; RoundRobin/ThreadAffinity routing break get-after-put across shards / threads (recorded findings, also proved as refutations on the model) while the per-shard theorems hold; three defects were repaired by fix: commits (clear leaking free nodes, short last page, unclamped reads).',
  'technique': 'Coq proof (simulation of the linked node array by a recency list via a representation invariant; induction over the page loop) + model/implementation differential check evaluated by vm_compute + reference-LRU / file-bytes oracle',
  'explanation': 'Unbounded Coq theorems about Gallina models of LruMap, ConcurrentLruMap and LruPageCache + differential check of the models against the compiled code + direct oracle on the code.'}
